@@ -117,6 +117,10 @@ package plush
 //@ requires data != nil && out != nil
 //@ ensures shape: fresh(result) && result.outer == out && result.data == data
 //@ ensures keep: forall k string :: old(has(data, k)) && old(data[k]) != nil ==> has(data, k) && data[k] == old(data[k])
+// C10/C17: a built-in helper is installed in the new scope only under a name that is visible nowhere on
+// the chain at that moment - not in the new scope's own data, not in any scope further out: whatever the
+// caller (or any ancestor) bound under that name stays visible
+//@ assert installs: callarg1 == k && view(out, box(k)) == nil && view(c, box(k)) == nil before Set#*
 //@ assigns contents(data), fresh
 //@ loop 1: invariant keep: forall k string :: old(has(data, k)) && old(data[k]) != nil ==> has(data, k) && data[k] == old(data[k])
 
